@@ -320,6 +320,11 @@ func newWorld(tag string, c *Case, mon *monitors) *world {
 	for _, n := range worldObjects {
 		w.call("dump", w.objs[n])
 	}
+	if !w.spec {
+		// host wrappers store exported Go values: an object read back is a fresh wrapper each time, identities
+		// discovered from now on are rendered anonymously
+		w.callV("setAnonAll", w.rt.ToValue(true))
+	}
 	if w.spec {
 		w.buildModel()
 	}
